@@ -200,6 +200,8 @@ func runPlainReader(data []byte, ops []rop) []string {
 			} else {
 				val = "0"
 			}
+		case 'y': // ReadSigned(w) in plain mode
+			val = hx.HexI(int64(r.ReadSigned(o.w)))
 		}
 		e := 0
 		if r.AccError() != nil {
@@ -411,6 +413,12 @@ func corr(seed uint64, n int, exh int) {
 		emitW("F", pops, fb, "-")
 		prs := matchingRops(pops)
 		emitR("P", pb, prs, runPlainReader(pb, prs))
+		// ReadSigned on the same bytes: widths 1..32 (two's complement)
+		srs := make([]rop, 0, 8)
+		for j := 0; j < 8; j++ {
+			srs = append(srs, rop{k: 'y', w: r.Range(1, 32)})
+		}
+		emitR("P", pb, srs, runPlainReader(pb, srs))
 	}
 	out.Flush()
 }
